@@ -25,6 +25,7 @@ type SolveResult struct {
 type Solver struct {
 	cacheDir string
 	timeout  time.Duration
+	extend   bool // re-run a timed-out query once with a longer limit
 	mu       sync.Mutex
 	hits     int
 	secs     map[string]float64
@@ -70,17 +71,28 @@ func itoa(n int) string {
 // reported failure.
 func (s *Solver) Prove(query string, wantModel bool) SolveResult {
 	var r SolveResult
+	timedOut := false
 	for attempt := 0; attempt < 3; attempt++ {
 		t0 := time.Now()
-		r = s.proveOnce(query, wantModel)
-		if r.Status != "unknown" || time.Since(t0) > s.timeout/2 {
+		r = s.proveOnce(query, wantModel, s.timeout)
+		if r.Status != "unknown" {
+			return r
+		}
+		if time.Since(t0) > s.timeout/2 {
+			timedOut = true
 			break
 		}
+	}
+	// a query that ran into the time limit gets one more race with a three times longer limit: an
+	// obligation that is merely slow on a loaded machine must not be reported as a violation
+	// (GOVC_NO_EXTEND=1 switches this off, e.g. for the mutant corpus where most runs have a real failure)
+	if timedOut && s.extend && os.Getenv("GOVC_NO_EXTEND") != "1" {
+		r = s.proveOnce(query, wantModel, 3*s.timeout)
 	}
 	return r
 }
 
-func (s *Solver) proveOnce(query string, wantModel bool) SolveResult {
+func (s *Solver) proveOnce(query string, wantModel bool, timeout time.Duration) SolveResult {
 	k := s.key(query)
 	cf := filepath.Join(s.cacheDir, k[:2], k+".json")
 	if data, err := os.ReadFile(cf); err == nil {
@@ -104,10 +116,10 @@ func (s *Solver) proveOnce(query string, wantModel bool) SolveResult {
 	type ans struct {
 		status, who, out string
 	}
-	ctx, cancel := context.WithTimeout(context.Background(), s.timeout+2*time.Second)
+	ctx, cancel := context.WithTimeout(context.Background(), timeout+2*time.Second)
 	defer cancel()
 	ch := make(chan ans, len(solverCmds))
-	secs := int(s.timeout.Seconds())
+	secs := int(timeout.Seconds())
 	if secs < 1 {
 		secs = 1
 	}
